@@ -95,10 +95,8 @@ KNOWN = [
      "what": "run_unary_op / run_binary_op called from a native function (display in print, comparisons, ..) while the "
              "calling frame holds 254 or more registers: `next_register() + 1` overflows the 8-bit register index",
      "witness": "print(0, 1, .., 250)  (corpus/C06/print_251_args.koto); x = [0, 1, .., 254]"},
-    {"id": "C06q", "entry": r"map\.update|text:run", "file": "core_lib/map.rs", "msg": r"Option::unwrap\(\)` on a `None` value",
-     "what": "map.update with a NaN key: the default is inserted under NaN, the lookup that follows misses it "
-             "(NaN != NaN) and do_map_update unwraps None",
-     "witness": "m = {}; m.update number.nan, |x| 1"},
+    # C06q (map.update with a NaN key unwrapped None) is FIXED in /repo (3c98e6d): it suppresses nothing any more;
+    # corpus/C06/map_update_nan_key.koto stays as a regression input
     {"id": "C06l", "entry": r"text:format.*", "file": "format/src/format.rs", "msg": r"is not a char boundary",
      "what": "koto_format slices the source at a byte offset computed from character columns: panics on lines "
              "containing multi-byte characters",
